@@ -18,7 +18,7 @@ PROP = {
             "configurations observe exactly what the model observes. Statement on the model: same observations for thresholds (8,4), (0,0), (1000,1000) with the cache off. "
             "A difference counts as a listed class only if its first occurrence comes at or after an input in which the model executed an in-place-capable operation on a "
             "large container THROUGH A NAME THAT MAY SHARE STORAGE with another live name, decided by a syntactic may-alias analysis over the session's trees (plain copies, arguments, "
-            "containment, slices/rest of arrays, array +; literals, *, + with a map on the left and rest/slices of maps are fresh): a write through a name owning fresh storage never explains a difference. non-trivial = at least one input parses; distinct = distinct case line.",
+            "containment, slices/rest of arrays, array +; literals, *, + with a map on the left and rest/slices of maps are fresh; rest/slices of arrays share elements but not spare capacity, so an append through such a base explains nothing): a write through a name owning fresh storage never explains a difference. non-trivial = at least one input parses; distinct = distinct case line.",
     "trusted_base": EVAL_TB + ["the Go heap (sharing of BigArray slices / *BigMap pointers) is NOT modelled: the model is the value-semantic specification; the three open classes "
                                "are decided by the driver from what the MODEL executed (St.hazards), see lean/Grol/Eval/HazardSession.lean"],
     "assumptions": EVAL_ASSUME + ["C06.Statement is about the implementation and is false of the current code for large containers (3 open classes, witnesses replayed every run)"],
